@@ -6,6 +6,8 @@ import (
 	"net"
 	"sort"
 	"strings"
+	"sync"
+	"testing"
 	"time"
 
 	"verif/report"
@@ -58,6 +60,7 @@ type call struct {
 }
 
 type schedState struct {
+	mu     sync.Mutex // harness bookkeeping only (needed by the free-running pass)
 	s      *sys
 	calls  []*call
 	preRes []string
@@ -98,7 +101,9 @@ func (sc scen) scenario() *sched.Scenario {
 				x.Thread(fmt.Sprintf("T%d", ti), func() {
 					for _, op := range ops {
 						c := &call{th: ti, op: op}
+						st.mu.Lock()
 						st.calls = append(st.calls, c)
+						st.mu.Unlock()
 						c.res = doOp(st.s, op)
 						c.done = true
 						x.Obs("T%d:%s=%s", ti, op, c.res)
@@ -333,6 +338,22 @@ func checkLog(sc scen, st *schedState, live map[int]block) []sched.Viol {
 		}
 	}
 	return vs
+}
+
+// TestRacePass is the separate free-running pass (built with -race by bin/check in the thorough tier): the same
+// scenario bodies on real goroutines and real locks, many rounds each; end-state invariants are evaluated too.
+func TestRacePass(t *testing.T) {
+	n := 0
+	for _, sc := range scenarios(true) {
+		for round := 0; round < 300; round++ {
+			x := sched.RunFree(sc.scenario())
+			if vs := checkSched(sc, x.Data.(*schedState)); len(vs) > 0 {
+				t.Errorf("free-running %s: %v", sc.name, vs)
+			}
+			n++
+		}
+	}
+	fmt.Printf("RACEPASS executions=%d\n", n)
 }
 
 func runSched(run *report.Run) {
